@@ -33,6 +33,7 @@ type Program struct {
 	rtErrT     types.Type // runtime.errorString
 	errorStrT  types.Type // *errors.errorString
 	wrapErrT   types.Type // *fmt.wrapError
+	wrapErrsT  types.Type // *fmt.wrapErrors
 	summariseR []string
 }
 
